@@ -4,7 +4,8 @@ reference-format tables)."""
 import ast
 
 from ..engine import rule
-from ..flow import PRUNE, Violation, explore, implied_atoms, path_ends, \
+from ..flow import PRUNE, Violation, explore, if_branches, implied_atoms, \
+    path_ends, \
     path_is, prov_has, provenance
 from ..model import dotted, walk_local
 
@@ -23,10 +24,30 @@ def elt_name(e):
 
 
 def writer_shapes(R):
-    """Shapes persistent_id can return: ('list', tag, [names]) /
-    ('tuple', n, [names]) / ('bare',) / ('none',)"""
+    """Shapes persistent_id can return: ('list', tag, [roles]) /
+    ('tuple', n, [roles]) / ('bare',) / ('none',).  A field is named by its
+    ROLE -- where its value comes from -- not by what the local is called:
+    'oid' (an object's _p_oid / a new oid), 'database_name' (a database's
+    name), 'klass' (type(obj))."""
     w = R.prog.cls(WRITER)
     f = R.method(w, 'persistent_id')
+    g, b, F = R.cfg(f, w, max_depth=0)
+
+    def elt_name(e):                        # noqa: F811  (role, see above)
+        if isinstance(e, ast.Attribute):
+            return e.attr
+        if isinstance(e, ast.Name):
+            pv = provenance(e, g.root, F)
+            if prov_has(pv, 'attr', lambda a: a == 'database_name'):
+                return 'database_name'
+            if prov_has(pv, 'call', lambda p: p[-1].lstrip('@') == 'type') or prov_has(
+                    pv, 'attr', lambda a: a == '__class__'):
+                return 'klass'
+            if prov_has(pv, 'attr', lambda a: a in ('_p_oid', 'oid')) or \
+                    prov_has(pv, 'call', lambda p: p[-1] == 'new_oid'):
+                return 'oid'
+            return e.id
+        return None
     shapes = []
     for r in walk_local(f.node):
         if not isinstance(r, ast.Return):
@@ -114,20 +135,32 @@ def r1(R):
     init = R.method(pr, '__init__')
     handled = {}
     for x in walk_local(init.node):
-        if isinstance(x, ast.If) and isinstance(x.test, ast.Compare) and \
-                isinstance(x.test.left, ast.Name) and isinstance(
-                    x.test.comparators[0], ast.Constant) and isinstance(
-                        x.test.comparators[0].value, str) and len(
-                            x.test.comparators[0].value) == 1:
-            tag = x.test.comparators[0].value
-            arities = set()
-            for y in x.body:
-                for z in ast.walk(y):
-                    if isinstance(z, ast.Assign) and isinstance(
-                            z.targets[0], ast.Tuple) and \
-                            'data[1]' in ast.unparse(z.value):
-                        arities.add(len(z.targets[0].elts))
-            handled[tag] = arities
+        if not isinstance(x, ast.If):
+            continue
+        for atoms, block in if_branches(x):
+            for e, truth in atoms:
+                if not (isinstance(e, ast.Compare) and len(e.ops) == 1 and
+                        isinstance(e.left, ast.Name) and isinstance(
+                            e.comparators[0], ast.Constant) and isinstance(
+                                e.comparators[0].value, str) and len(
+                                    e.comparators[0].value) == 1 and
+                        isinstance(e.ops[0], (ast.Eq, ast.NotEq)) and
+                        isinstance(e.ops[0], ast.Eq) == truth):
+                    continue
+                tag = e.comparators[0].value
+                arities = set()
+                for y in block:
+                    if isinstance(y, ast.If) and block is x.orelse:
+                        continue        # the next link of an elif chain
+                    for z in ast.walk(y):
+                        if isinstance(z, ast.Assign) and isinstance(
+                                z.targets[0], ast.Tuple) and any(
+                                    isinstance(q, ast.Subscript) and
+                                    isinstance(q.slice, ast.Constant) and
+                                    q.slice.value == 1
+                                    for q in ast.walk(z.value)):
+                            arities.add(len(z.targets[0].elts))
+                handled[tag] = arities
     R.instance('PersistentReference tags', tags={k: sorted(v)
                                                  for k, v in handled.items()})
     for kind, tag, names, ln in lists:
@@ -144,12 +177,13 @@ def r1(R):
     # --- extractors treat tuple / bytes / list
     for fn in ('referencesf', 'get_refs'):
         m = R.prog.func(SER + '.' + fn)
-        src = ast.unparse(m.node)
         R.instance('%s shapes' % fn)
-        for need, what in (('isinstance(reference, tuple)', 'tuple'),
-                           ('isinstance(reference, (bytes, str))', 'bare oid'),
-                           ):
-            if need not in src:
+        tests = [ast.unparse(c.args[1]) for c in walk_local(m.node)
+                 if isinstance(c, ast.Call) and isinstance(c.func, ast.Name)
+                 and c.func.id == 'isinstance' and len(c.args) == 2]
+        for ok, what in ((any(t == 'tuple' for t in tests), 'tuple'),
+                         (any('bytes' in t for t in tests), 'bare oid')):
+            if not ok:
                 R.violation((m.module.relpath, m.qualname, what + ' branch'),
                             '%s no longer recognises %s references' % (
                                 fn, what))
@@ -173,15 +207,24 @@ def r2(R):
         R.instance(f.short)
         ok = False
         for x in walk_local(f.node):
-            if isinstance(x, ast.If):
-                t = ast.unparse(x.test)
-                if 'isinstance' in t and 'bytes' in t and t.startswith('not'):
-                    body = ast.unparse(ast.Module(body=x.body,
-                                                  type_ignores=[]))
-                    if ".encode('ascii')" in body or '.encode("ascii")' in \
-                            body or 'ascii_bytes' in body or 'as_bytes' in \
-                            body:
-                        ok = True
+            if not isinstance(x, ast.If):
+                continue
+            # the block entered when `isinstance(<x>, bytes)` is false
+            for atoms, block in if_branches(x):
+                if not any(isinstance(e, ast.Call) and isinstance(
+                        e.func, ast.Name) and e.func.id == 'isinstance' and
+                        len(e.args) == 2 and 'bytes' in ast.unparse(
+                            e.args[1]) and not truth for e, truth in atoms):
+                    continue
+                for y in block:
+                    for c in ast.walk(y):
+                        if isinstance(c, ast.Call) and dotted(c.func) and (
+                                (dotted(c.func)[-1] == 'encode' and c.args
+                                 and isinstance(c.args[0], ast.Constant) and
+                                 c.args[0].value == 'ascii') or
+                                dotted(c.func)[-1] in ('ascii_bytes',
+                                                       'as_bytes')):
+                            ok = True
         if not ok:
             R.violation((f.module.relpath, f.qualname, 'oid normalisation'),
                         '%s does not convert an oid that was unpickled as '
